@@ -213,7 +213,8 @@ impl Registry {
                         write!(output, "on {} ", name.node.on.node)?;
                         self.types.get(name.node.on.node.as_str())
                     } else {
-                        None
+                        // an inline fragment without a type condition keeps the enclosing type
+                        parent_type
                     };
                     self.stringify_selection_set(
                         output,
